@@ -106,7 +106,7 @@ static int base64_encode(char *buf, size_t *buflen, const void *data,
 	return iout;
 }
 
-#define REV64(x) rev64[(int) (x)]
+#define REV64(x) rev64[(unsigned char) (x)]
 
 /*
  * Fills *buf with max. *buflen bytes, decoded from slen chars in *str.
